@@ -306,7 +306,7 @@ pub fn c12(ctx: &CheckCtx) -> i32 {
          distinct by (query, argument map).",
     );
     report.assume("enum-valued arguments are not generated (documented unsupported)");
-    let cases = ctx.cases(50_000, 2_000_000);
+    let cases = ctx.cases(150_000, 2_000_000);
     let res = search(ctx, "c12", cases, WORLD_MIN_LEN + 40, WORLD_MAX_LEN + 40, |b, s, counting| c12_case(b, s, counting, &cfg));
     report.absorb(res, &|b| render_world_case(&b[40.min(b.len())..], &cfg));
     report.finish()
@@ -314,6 +314,9 @@ pub fn c12(ctx: &CheckCtx) -> i32 {
 
 // ---------------------------------------------------------------------------------------------
 // C15
+
+/// contexts / vertices pulled through the adapter in the direct run above which a case is not traced
+const C15_MAX_PULLS: u64 = 6_000;
 
 pub fn c15_case(bytes: &[u8], stats: &mut Stats, counting: bool, cfg: &GenConfig) -> Verdict {
     let mut c = Choices::new(bytes);
@@ -325,12 +328,20 @@ pub fn c15_case(bytes: &[u8], stats: &mut Stats, counting: bool, cfg: &GenConfig
         Err(v) => return v,
     };
     let args = engine::args_to_engine(&case.args);
-    let direct = engine::execute(Arc::new(GraphAdapter::new(case.world.clone())), compiled.iq.clone(), args.clone(), ROW_LIMIT);
+    // the direct run also measures the work: a trace keeps a full context per operation, so a query that pulls very
+    // many contexts (while producing few rows) would make the traced run take gigabytes
+    let (counting_adapter, counters) = crate::wrappers::CountingAdapter::new(GraphAdapter::new(case.world.clone()));
+    #[allow(clippy::arc_with_non_send_sync)]
+    let direct = engine::execute(Arc::new(counting_adapter), compiled.iq.clone(), args.clone(), ROW_LIMIT);
     let direct_rows = match direct {
         ExecOutcome::Rows(r) => r,
         ExecOutcome::ArgError(_) => return Verdict::Discard("args-rejected(C12)".into()),
         ExecOutcome::Panic(..) => return Verdict::Discard("engine-panic(C09)".into()),
     };
+    let (starts, pulls) = counters.snapshot();
+    if starts + pulls > C15_MAX_PULLS {
+        return Verdict::Discard("too-much-work-for-a-trace".into());
+    }
     if direct_rows.len() > 300 {
         // traces hold a full context per operation: keep them small
         return Verdict::Discard("too-many-rows-for-a-trace".into());
@@ -427,7 +438,7 @@ pub fn c15(ctx: &CheckCtx) -> i32 {
          distinct by case hash.",
     );
     report.assume("traces are serialised with RON (the repo's own format); JSON cannot represent tuple map keys");
-    let cases = ctx.cases(15_000, 300_000);
+    let cases = ctx.cases(60_000, 600_000);
     let res = search(ctx, "c15", cases, WORLD_MIN_LEN, WORLD_MAX_LEN, |b, s, counting| c15_case(b, s, counting, &cfg));
     report.absorb(res, &|b| render_world_case(&b[1.min(b.len())..], &cfg));
     report.finish()
